@@ -1,6 +1,7 @@
 package main
 
 import (
+	"math"
 	"errors"
 	"fmt"
 	"strings"
@@ -146,9 +147,19 @@ func (c *c14Case) slice(i int) []int {
 	}
 	return c.arrs[d[0]-1][d[1] : d[1]+d[2] : d[1]+d[3]]
 }
+// a token within 1000 of +-2^60 stands for the int that far from MaxInt / MinInt (tokens must stay below 2^61)
+func c14Ext(v int64) int {
+	switch {
+	case v >= 1<<60-1000 && v <= 1<<60:
+		return math.MaxInt - int(1<<60-v)
+	case v >= -(1<<60) && v <= -(1<<60)+1000:
+		return math.MinInt + int(v+1<<60)
+	}
+	return int(v)
+}
 func (c *c14Case) arg(i int) int {
 	if i < len(c.args) {
-		return int(c.args[i])
+		return c14Ext(c.args[i])
 	}
 	return 0
 }
@@ -459,11 +470,15 @@ func (b *c14B) randWindow(t *T, maxlen, maxv int) [4]int {
 
 func c14Arg(t *T) int64 {
 	r := t.R
-	switch r.Intn(12) {
+	switch r.Intn(14) {
 	case 0:
-		return 1 << 60
+		return 1 << 60 // math.MaxInt
 	case 1:
-		return -(1 << 60)
+		return -(1 << 60) // math.MinInt
+	case 2:
+		return 1<<60 - int64(1+r.Intn(4)) // MaxInt-1 .. MaxInt-4: start+length overflows for small positive starts
+	case 3:
+		return -(1 << 60) + int64(1+r.Intn(4))
 	}
 	return int64(r.Intn(13)) - 2
 }
@@ -584,7 +599,7 @@ func (b *c14B) dstLayout(t *T, kind int, s1, s2 [4]int) [4]int {
 	return c14Nil
 }
 
-func exact(b *c14B, vals []int64) [4]int {
+func c14Exact(b *c14B, vals []int64) [4]int {
 	a := b.arr(vals)
 	return [4]int{a, 0, len(vals), len(vals)}
 }
@@ -602,14 +617,14 @@ func c14Gen(c *Ctx) {
 		for _, f := range []int{fDiff, fInter} {
 			for _, lay := range []int{0, 2, 3, 4, 6} {
 				b := &c14B{f: f}
-				s1, s2 := exact(b, v1), exact(b, v2)
+				s1, s2 := c14Exact(b, v1), c14Exact(b, v2)
 				b.sl = [][4]int{b.dstLayout(t, lay, s1, s2), s1, s2}
 				c14Try(t, fmt.Sprintf("exh-%s-layout%d", c14Names[f], lay), b.enc())
 			}
 		}
 		for _, f := range []int{fDiffIP, fInterIP} {
 			b := &c14B{f: f}
-			b.sl = [][4]int{exact(b, v1), exact(b, v2)}
+			b.sl = [][4]int{c14Exact(b, v1), c14Exact(b, v2)}
 			c14Try(t, "exh-"+c14Names[f], b.enc())
 		}
 	})
@@ -619,7 +634,7 @@ func c14Gen(c *Ctx) {
 		for _, f := range []int{fUnique, fUniqKey} {
 			for _, lay := range []int{0, 2, 3, 4} {
 				b := &c14B{f: f}
-				s := exact(b, v)
+				s := c14Exact(b, v)
 				b.sl = [][4]int{b.dstLayout(t, lay, s, c14Nil), s}
 				if f == fUniqKey {
 					b.args = []int64{2}
@@ -629,7 +644,7 @@ func c14Gen(c *Ctx) {
 		}
 		for _, f := range []int{fUniqueIP, fUniqKeyIP} {
 			b := &c14B{f: f}
-			b.sl = [][4]int{exact(b, v)}
+			b.sl = [][4]int{c14Exact(b, v)}
 			if f == fUniqKeyIP {
 				b.args = []int64{2}
 			}
@@ -641,12 +656,12 @@ func c14Gen(c *Ctx) {
 		v, mask := l34[i/8], int64(i%8)
 		for _, lay := range []int{0, 2, 3, 4} {
 			b := &c14B{f: fFilter, args: []int64{mask}}
-			s := exact(b, v)
+			s := c14Exact(b, v)
 			b.sl = [][4]int{b.dstLayout(t, lay, s, c14Nil), s}
 			c14Try(t, fmt.Sprintf("exh-Filter-layout%d", lay), b.enc())
 		}
 		b := &c14B{f: fFilterIP, args: []int64{mask}}
-		b.sl = [][4]int{exact(b, v)}
+		b.sl = [][4]int{c14Exact(b, v)}
 		c14Try(t, "exh-FilterInPlace", b.enc())
 	})
 	// clamping functions: every length 0..8 (and nil), every pair of arguments in -2..10
@@ -658,7 +673,7 @@ func c14Gen(c *Ctx) {
 			if n == 9 {
 				b.sl = [][4]int{c14Nil}
 			} else {
-				b.sl = [][4]int{exact(b, c14RandVals(t, n, 4))}
+				b.sl = [][4]int{c14Exact(b, c14RandVals(t, n, 4))}
 			}
 			c14Try(t, "exh-"+c14Names[f], b.enc())
 		}
@@ -668,7 +683,7 @@ func c14Gen(c *Ctx) {
 				if n == 9 {
 					b.sl = [][4]int{c14Nil}
 				} else {
-					b.sl = [][4]int{exact(b, c14RandVals(t, n, 4))}
+					b.sl = [][4]int{c14Exact(b, c14RandVals(t, n, 4))}
 				}
 				c14Try(t, "exh-"+c14Names[f], b.enc())
 			}
